@@ -9,9 +9,7 @@ import (
 	"cmp"
 	_ "embed"
 	"fmt"
-	"go/parser"
-	"go/printer"
-	"go/token"
+	"go/format"
 	"io"
 	"iter"
 	"math"
@@ -1427,18 +1425,13 @@ func (t *Tree) Compile(file string, args []string, out io.Writer) (err error) {
 	if err != nil {
 		return err
 	}
-	fileSet := token.NewFileSet()
-	code, err := parser.ParseFile(fileSet, file, &buffer, parser.ParseComments|parser.SkipObjectResolution)
+	/* what gofmt does, number literals of the embedded Go code included:
+	   go/printer alone would leave 0X1F or 1E3 as written */
+	code, err := format.Source(buffer.Bytes())
 	if err != nil {
 		_, _ = buffer.WriteTo(out)
-		return err
+		return fmt.Errorf("%v:%w", file, err)
 	}
-	formatter := printer.Config{Mode: printer.TabIndent | printer.UseSpaces, Tabwidth: 8}
-	err = formatter.Fprint(out, fileSet, code)
-	if err != nil {
-		_, _ = buffer.WriteTo(out)
-		return err
-	}
-
-	return nil
+	_, err = out.Write(code)
+	return err
 }
